@@ -75,6 +75,12 @@ CLAIMED = {
              "index targeting) are built three times (values v, v', v again) with symbolic variable values and compared with direct construction; "
              "template unchanged; mappable registers resolve to the requested traps in declared order (concrete enumeration).", ref="§6 C08",
              note="Trusted base: z3, symx, stubs in the evidence file; np.sin etc. of variables are uninterpreted functions; mappable-register cases are concrete."),
+ "C17": dict(text="Bounded symbolic model checking of construction and abstract-repr round trips: NoiseModel (all 1-/2-subsets of 9 numeric "
+             "parameters symbolic: active types = non-zero parameters, acceptance = documented ranges, field-wise round trip), Device/VirtualDevice "
+             "with EOM/DMM and 12 optional-field patterns (symbolic channel and device numbers, real schema validation, field-wise equality), "
+             "Register/Register3D/RegisterLayout/DetuningMap with symbolic coordinates and weights, plus independence of repeated decodes.", ref="§6 C17",
+             note="Trusted base: z3, symx, token JSON facade. Findings F14, F15 are reported as KNOWN-FINDING. EmulationConfig/Results/State/Operator and "
+             "SimConfig (QuTiP-backed) are outside the claim; aliasing is decided by identity/mutation checks."),
  "C02": dict(text="Bounded symbolic model checking of the real _Schedule operations: one operation from an arbitrary state "
              "satisfying the representation invariant (inductive step), all times/durations/fall times/limits as solver variables; "
              "exhaustive over paths and values inside the stated slot-count/clock bounds.", ref="§6 C02, §5 L1"),
